@@ -75,6 +75,13 @@ def contracts(unit, im, f):
     return None
 
 
+def predicate_contracts(unit, im, f):
+    """the SquareMatrix predicates whose contracts need nothing of the approx family (available in every unit's base)"""
+    if im is not None and trait_name(im.trait) == 'SquareMatrix' and f.name in ('is_invertible', 'is_diagonal', 'is_symmetric'):
+        return contracts(unit, im, f)
+    return None
+
+
 APX = r"(approx::)?(AbsDiffEq|RelativeEq|UlpsEq)"
 
 
